@@ -429,7 +429,11 @@ pub fn zone_spec(apex: MName, valid_only: bool, big: bool, soa_min_lt_2_31: bool
         prop::collection::vec((prop::collection::vec(prop_oneof![Just(b"sub".to_vec()), Just(b"del".to_vec()), Just(b"a".to_vec())], 1..3), any::<u8>(), any::<u8>()), 0..3),
         prop::collection::vec((prop_oneof![Just(b"mx".to_vec()), Just(b"h".to_vec()), Just(b"ns".to_vec())], zlabel(), any::<u8>()), 0..3),
         // a delegation with many long name-server names, glue and parent-side addresses (truncation tests)
-        if big { prop::option::weighted(0.6, (1usize..14, 1usize..=60, 0usize..8, any::<u8>())).boxed() } else { Just(None).boxed() },
+        if big {
+            prop::option::weighted(0.6, (prop_oneof![8 => 1usize..14, 1 => 14usize..26], prop_oneof![6 => 1usize..=60, 2 => 1usize..=6], prop_oneof![8 => 0usize..8, 1 => 8usize..26], any::<u8>())).boxed()
+        } else {
+            Just(None).boxed()
+        },
         // an RRset of more than 16 records whose targets have addresses in the zone (MX / SRV at
         // "wide", or NS at the apex): additional-section processing for every one of them
         prop::option::weighted(0.08, (17usize..24, 0u8..3, any::<u8>())),
@@ -511,7 +515,16 @@ pub fn zone_spec(apex: MName, valid_only: bool, big: bool, soa_min_lt_2_31: bool
             }
             if let Some((n, shape, addr_mask)) = wide {
                 for i in 0..n {
-                    let target = NameSpec::Rel(vec![format!("t{i}").into_bytes(), b"wide".to_vec()], 0);
+                    let target = if addr_mask & 4 != 0 {
+                        NameSpec::Rel(vec![format!("t{i}").into_bytes(), format!("late{}", (i / 2) % 2).into_bytes(), b"wide".to_vec()], 0)
+                    } else {
+                        NameSpec::Rel(vec![format!("t{i}").into_bytes(), b"wide".to_vec()], 0)
+                    };
+                    if addr_mask & 8 != 0 && i % 4 == 2 {
+                        for k in 0..12u8 {
+                            all.push(RecSpec { owner: target.clone(), ttl: 300, rd: RdSpec::A(100 + k) });
+                        }
+                    }
                     let (owner, rd) = match (shape, class) {
                         (1, c) if c == mr::C_IN => (NameSpec::Rel(vec![b"wide".to_vec()], 0), RdSpec::Srv(80 + i as u16, target.clone())),
                         (2, _) => (NameSpec::Rel(vec![], 0), RdSpec::Single(mr::T_NS, target.clone())),
